@@ -7,7 +7,7 @@
 From Coq Require Import List Bool.
 From GV Require Import Base.Outcome Base.AMap Model.GState Model.Creation Model.Query Spec.AGraph Spec.History.
 From GV Require Import Model.Derived.
-From GV Require Import Proofs.WFDefs Proofs.HistoryOk Proofs.QueryOk Proofs.DegreeOk Proofs.NoPanic Proofs.DerivedContent.
+From GV Require Import Proofs.WFDefs Proofs.HistoryOk Proofs.QueryOk Proofs.DegreeOk Proofs.NoPanic Proofs.DerivedContent Proofs.QueryTotal.
 Import ListNotations.
 
 Section C20.
@@ -86,5 +86,79 @@ Section C20.
     WF g -> In x (names g) -> exists l, get_neighbor_nodes teqb g x = Ok l.
   Proof.
     intros g x W Hx. destruct (get_neighbor_nodes_spec teqb tltb g x W Hx) as (l & H & _). exists l. exact H.
+  Qed.
+  (* ---- the complete list: every modelled query of query.rs / degree.rs and the two
+     Result-returning constructors of convert.rs, for EVERY argument (present or absent names,
+     any kind of graph): the outcome is Ok or Err, never a Panic site, never out of fuel ---- *)
+  Theorem C20_every_query_total : forall (g : gstate), WF g ->
+    (forall x, total (get_node teqb g x) = true /\ total (has_node teqb g x) = true /\
+               total (get_edges_for_node teqb tltb g x) = true /\
+               total (get_in_edges_for_node teqb g x) = true /\ total (get_out_edges_for_node teqb g x) = true /\
+               total (get_neighbor_nodes teqb g x) = true /\
+               total (get_successor_nodes teqb g x) = true /\ total (get_predecessor_nodes teqb g x) = true /\
+               total (get_successor_node_names teqb g x) = true /\ total (get_predecessor_node_names teqb g x) = true /\
+               total (get_node_degree teqb tltb g x) = true /\
+               total (get_node_in_degree teqb g x) = true /\ total (get_node_out_degree teqb g x) = true /\
+               total (get_node_weighted_degree teqb tltb g x) = true /\
+               total (get_node_weighted_in_degree teqb g x) = true /\
+               total (get_node_weighted_out_degree teqb g x) = true) /\
+    (forall u v, total (get_edge teqb g u v) = true /\ total (get_edges teqb g u v) = true) /\
+    (forall xs, total (has_nodes teqb g xs) = true /\ total (get_edges_for_nodes teqb g xs) = true /\
+                total (get_in_edges_for_nodes teqb g xs) = true /\ total (get_out_edges_for_nodes teqb g xs) = true) /\
+    total (reverse teqb tltb g) = true /\ total (to_single_edges teqb tltb g) = true.
+  Proof. exact (queries_total teqb tltb teqb_spec tltb_asym tltb_total). Qed.
+
+  Theorem C20_total_means_value_or_error : forall X (r : outcome X),
+    total r = true <-> (exists x, r = Ok x) \/ (exists k, r = Err k).
+  Proof. exact @total_cases. Qed.
+
+  (* the *_for_all_nodes maps unwrap one per-node call per node (degree.rs): every one of those
+     calls is made on an existing name and returns Some, so the maps are total, with one entry per
+     node in node order; the directed-only ones answer WrongMethod on an undirected graph *)
+  Theorem C20_degree_maps_total : forall (g : gstate), WF g ->
+    (exists l, get_degree_for_all_nodes teqb tltb g = Ok l /\ map fst l = names g) /\
+    (exists l, get_weighted_degree_for_all_nodes teqb tltb g = Ok l /\ map fst l = names g) /\
+    (if directed (sp g) then exists l, get_in_degree_for_all_nodes teqb g = Ok l /\ map fst l = names g
+     else get_in_degree_for_all_nodes teqb g = Err WrongMethod) /\
+    (if directed (sp g) then exists l, get_out_degree_for_all_nodes teqb g = Ok l /\ map fst l = names g
+     else get_out_degree_for_all_nodes teqb g = Err WrongMethod) /\
+    (if directed (sp g) then exists l, get_weighted_in_degree_for_all_nodes teqb g = Ok l /\ map fst l = names g
+     else get_weighted_in_degree_for_all_nodes teqb g = Err WrongMethod) /\
+    (if directed (sp g) then exists l, get_weighted_out_degree_for_all_nodes teqb g = Ok l /\ map fst l = names g
+     else get_weighted_out_degree_for_all_nodes teqb g = Err WrongMethod).
+  Proof.
+    intros g W. repeat split.
+    - exact (get_degree_for_all_nodes_total teqb tltb teqb_spec tltb_total g W).
+    - exact (get_weighted_degree_for_all_nodes_total teqb tltb teqb_spec tltb_total g W).
+    - exact (get_in_degree_for_all_nodes_total teqb tltb teqb_spec g W).
+    - exact (get_out_degree_for_all_nodes_total teqb tltb teqb_spec g W).
+    - exact (get_weighted_in_degree_for_all_nodes_total teqb tltb teqb_spec g W).
+    - exact (get_weighted_out_degree_for_all_nodes_total teqb tltb teqb_spec g W).
+  Qed.
+
+  (* no error channel: get_successors_or_neighbors unwraps; total on existing names *)
+  Theorem C20_successors_or_neighbors_existing : forall (g : gstate) x,
+    WF g -> In x (names g) -> exists l, get_successors_or_neighbors teqb g x = Ok l.
+  Proof. exact (get_successors_or_neighbors_total teqb tltb). Qed.
+
+  (* the sparse adjacency matrix of a single-edge graph never indexes an empty edge group *)
+  Theorem C20_matrix_total : forall (g : gstate),
+    WF g -> multi (sp g) = false -> total (matrix_triplets g) = true.
+  Proof. exact (matrix_total teqb tltb tltb_asym tltb_total). Qed.
+
+  (* hence for every graph the API can build: any history of mutations from new(specs) *)
+  Theorem C20_every_query_total_after_any_history : forall s (g : gstate) (x u v : T) xs,
+    reachable teqb tltb s g ->
+    total (get_node teqb g x) = true /\ total (get_edge teqb g u v) = true /\ total (get_edges teqb g u v) = true /\
+    total (get_edges_for_node teqb tltb g x) = true /\ total (get_neighbor_nodes teqb g x) = true /\
+    total (get_node_degree teqb tltb g x) = true /\ total (get_edges_for_nodes teqb g xs) = true /\
+    total (reverse teqb tltb g) = true /\ total (to_single_edges teqb tltb g) = true.
+  Proof.
+    intros s g x u v xs R.
+    pose proof (WF_reachable teqb tltb teqb_spec tltb_asym tltb_total s g R) as W.
+    destruct (queries_total teqb tltb teqb_spec tltb_asym tltb_total g W) as (H1 & H2 & H3 & H4 & H5).
+    destruct (H1 x) as (a & _ & b & _ & _ & c & _ & _ & _ & _ & d & _).
+    destruct (H2 u v) as (e & f). destruct (H3 xs) as (_ & h & _).
+    repeat split; assumption.
   Qed.
 End C20.
